@@ -1,6 +1,6 @@
 CONSTANTS
-  TIMEOUTS = FALSE
-  NOTIFYEXIT = TRUE
+  TIMEOUTS = TRUE
+  NOTIFYEXIT = FALSE
   FIXED = TRUE
   FIXALL = TRUE
 SPECIFICATION Spec
